@@ -35,7 +35,7 @@ def _isinstance_tuples(fn, subject_pred):
 
 @rule(
     "R03a",
-    ["C03", "C18"],
+    ["C03", "C18", "C01"],
     """READER NULL-SEMANTICS: the operator classes that ReadParquet._filter_passthrough_available and
     _DNF.extract_pq_filters accept for translation into reader filters must be null-safe comparison leaves
     {LE,GE,LT,GT,EQ} or the combiners {And,Or}: pandas keeps a row for `x != v` when x is missing, the arrow reader
@@ -168,7 +168,7 @@ RIGHT_OK = {"right", "inner"}
 
 @rule(
     "R03b",
-    ["C03"],
+    ["C03", "C01"],
     """JOIN-SIDE TABLE: in Merge._filter_passthrough_available the join kinds returned under 'predicate columns are a
     subset of the left input' must be within {left, inner, leftsemi} and under '... of the right input' within
     {right, inner}: any other kind can re-introduce (null-extended) rows of that side after the filter moved below
@@ -224,7 +224,7 @@ def r03b(ctx):
 
 @rule(
     "R03c",
-    ["C03"],
+    ["C03", "C01"],
     """SUFFIX GUARD: in Merge._simplify_up (Filter branch) each predicate.substitute(self, self.<side>) must sit
     (a) under 'predicate columns subset of that side' and (b) in the else-branch of a test that mentions the side's
     suffix and the other side's columns - a column renamed by suffixing must not be filtered on the wrong input.""",
@@ -409,9 +409,17 @@ R03E_ALLOWED = {
 }
 
 
+R03E_OVERRIDES = {
+    "_expr.Expr": "base: flag and generic legality test",
+    "_merge.Merge": "join-side table (R03b) and suffix guard (R03c)",
+    "_shuffle.SetIndex": "refuses predicates on the index",
+    "io.parquet.ReadParquet": "reader translation gate (R03a)",
+}
+
+
 @rule(
     "R03e",
-    ["C03"],
+    ["C03", "C01"],
     """PASSTHROUGH ALLOW-LIST: _filter_passthrough resolves (through the MRO) to True only on the classes confirmed
     row-local or row-permuting; the base Expr keeps it False; a class acquiring the flag outside the table
     (aggregations, windows, joins, head/tail, sampling ... change which rows exist) is reported.""",
@@ -438,6 +446,13 @@ def r03e(ctx):
         elif v is None:
             ctx.unclassified(f"{c.qual}._filter_passthrough", c.loc, "flag value not a constant")
     ctx.floor("classes with _filter_passthrough=True", n, 25)
+    # classes that decide for themselves (override of _filter_passthrough_available) are an allow-list too
+    for c, m in own_methods(model, "_filter_passthrough_available"):
+        cid = f"{c.qual}._filter_passthrough_available:override"
+        if c.qual in R03E_OVERRIDES:
+            ctx.ok(cid, c.module.loc(m.node), R03E_OVERRIDES[c.qual])
+        else:
+            ctx.bad(cid, c.module.loc(m.node), f"{c.qual} defines its own _filter_passthrough_available: a new way for filters to cross this operator that is not in the confirmed table (the operator changes values or rows, so the predicate would be evaluated on different data)")
     # SetIndex: index predicates must be refused (the index changes)
     si = model.cls("SetIndex")
     fn = model.method(si, "_filter_passthrough_available", own=True).node
